@@ -318,6 +318,89 @@ def check_specs(specs, floating, r=None):
     return fails
 
 
+# {{{ complex constants (C++: std::complex)
+
+CX_CONSTS = (1 + 2j, 2 + 0j, complex(0.5, 0.0), complex(0.5, -0.0), 1j, complex(-1.5, 0.0),
+             complex(3.0, -1.0))
+CX_POINTS = (-4.0, 2.5)
+
+
+def cx_trees():
+    import pymbolic.primitives as p
+    x = p.Variable("x")
+    for c in CX_CONSTS:
+        yield c, [c, p.Sum((x, c)), p.Product((c, x)), p.Power(x, c), p.Power(c, x),
+                  p.Quotient(x, c), p.Sum((p.Product((c, c)), x)), p.Power(p.Sum((x, 1.0)), c)]
+
+
+def check_complex(r=None):
+    """A complex constant keeps complex arithmetic in the generated code, also when its imaginary
+    part is zero (branch cuts: pow(-4.0, 0.5) is NaN, pow(-4.0, complex(0.5, 0)) is 2i).  The
+    generated texts are compiled as C++ and run; oracle = Python's complex arithmetic."""
+    import cmath
+    import os
+    import subprocess
+    import tempfile
+
+    from pymbolic.mapper.c_code import CCodeMapper
+    from pymbolic.mapper.stringifier import PREC_NONE
+    cases = []
+    for c, trees in cx_trees():
+        for e in trees:
+            try:
+                text = CCodeMapper()(e, PREC_NONE)
+            except RecursionError:
+                raise
+            except Exception as ex:  # noqa: BLE001
+                yield ("cx-map-raises", f"cx-map-raises|{c!r}|{type(e).__name__}",
+                       f"mapping {e!r} raised {ex!r}")
+                continue
+            cases.append((c, e, text))
+    lines = ["#include <complex>", "#include <cstdio>", "#include <cmath>", "using namespace std;",
+             "int main() {", "  const double xs[] = {" + ", ".join(map(repr, CX_POINTS)) + "};",
+             "  for (int i = 0; i < %d; ++i) { double x = xs[i];" % len(CX_POINTS)]
+    for k, (_c, _e, text) in enumerate(cases):
+        lines.append(f"    {{ std::complex<double> r = ({text}); "
+                     f'printf("%d %d %.17g %.17g\\n", {k}, i, r.real(), r.imag()); }}')
+    lines += ["  }", "  return 0;", "}"]
+    d = tempfile.mkdtemp(prefix="vf-c14-cx-")
+    try:
+        src = os.path.join(d, "cx.cpp")
+        with open(src, "w") as fh:
+            fh.write("\n".join(lines) + "\n")
+        exe = os.path.join(d, "cx")
+        cp = subprocess.run(["g++", "-O0", "-std=gnu++14", "-o", exe, src], capture_output=True,
+                            text=True, timeout=300)
+        if cp.returncode != 0:
+            yield ("cx-compile", "cx-compile", "g++ rejected the generated texts: "
+                   + cp.stderr[-600:])
+            return
+        out = subprocess.run([exe], capture_output=True, text=True, timeout=60).stdout
+    finally:
+        import shutil
+        shutil.rmtree(d, ignore_errors=True)
+    from pymbolic.mapper.evaluator import evaluate
+    for ln in out.splitlines():
+        k, i, re_, im_ = ln.split()
+        c, e, text = cases[int(k)]
+        xv = CX_POINTS[int(i)]
+        try:
+            want = complex(evaluate(e, {"x": xv}))
+        except (ZeroDivisionError, OverflowError, ValueError):
+            continue
+        got = complex(float(re_), float(im_))
+        if r is not None:
+            r.evals += 1
+        ok = (cmath.isnan(want) and cmath.isnan(got)) or abs(got - want) <= 1e-9 * max(1.0, abs(want))
+        if not ok:
+            yield ("cx-value", f"cx-value|{type(e).__name__}|{c!r}",
+                   f"{e!r} -> '{text}': at x={xv} the evaluator gives {want!r}, the C++ code {got!r}")
+    if r is not None:
+        r.keys.extend((repr(c), type(e).__name__) for c, e, _ in cases)
+
+# }}}
+
+
 # {{{ Engine B: CSE naming histories
 
 X, Y, Z = V("x"), V("y"), V("z")
@@ -466,7 +549,9 @@ class C14(Check):
             "(parent, position, child) nesting, three-level chains over 15 shapes, (grandparent, "
             "position) x binary parent with both operands composite over 6 / 11 shapes, and the "
             "floating fragment (quotient, powers, non-integer constants) -- each compiled by gcc "
-            "and run on every in-range environment of {0,1,2,3,5}^vars ({0.5,1,2.5,4}^vars). "
+            "and run on every in-range environment of {0,1,2,3,5}^vars ({0.5,1,2.5,4}^vars); 7 "
+            "complex constants (zero imaginary parts included) in 8 operand roles, compiled as C++ "
+            "and run at a negative and a positive point. "
             "Engine B: every history up to the depth bound over {map one of 8 expressions with "
             "shared/fresh/nested/prefixed wrappers on the original mapper or on its copy, map one "
             "of 2 expressions with an unrenderable leaf (must fail every time and leave the tables "
@@ -511,6 +596,7 @@ class C14(Check):
             ("int-hash-twins", lambda: batches("i", (
                 s for s in gen.twin_trees([(C(-1), C(-2)), (C(0), C(5)), (C(1), C(2))])
                 if s[0] != "tuple"))),
+            ("complex-constants", lambda: iter([("cx", 0)])),
             ("histories", lambda: (("h", (op,)) for op in OPS)),
         ]
         if tier == "thorough":
@@ -560,6 +646,10 @@ class C14(Check):
         mode = item[0]
         if mode == "h":
             return self.check_histories(r, tuple(tuple(op) for op in item[1]), tier)
+        if mode == "cx":
+            for k, sig, detail in check_complex(r):
+                r.fail(k, sig, detail)
+            return r
         floating = mode == "f"
         specs = item[1]
         fails = check_specs(specs, floating, r)
